@@ -408,8 +408,14 @@ def check_fn(st, evs, B):
                 continue
             B.count("fields")
             if exp == "time-fraction":
-                ok = got.isdigit() and len(got) == (3 if name == "timestamp_ms" else 6)
-                exp = {b"<3 or 6 digits>"}
+                # the sub-second part of a clock reading made between the oracle's reading (right before the call) and the
+                # driver's reading after the call returned: 3 digits = milliseconds that had begun, 6 digits = microseconds
+                t0, t1 = O["now_us"], en["now_us"]
+                if name == "timestamp_ms":
+                    ok = got.isdigit() and len(got) == 3 and (t1 - t0 > 900000 or ((int(got) - (t0 // 1000)) % 1000) <= (t1 // 1000 - t0 // 1000))
+                else:
+                    ok = got.isdigit() and len(got) == 6 and (t1 - t0 > 900000 or ((int(got) - t0) % 1000000) <= (t1 - t0))
+                exp = {b"<sub-second part of a reading between %d and %d us>" % (t0, t1)}
             else:
                 ok = got in exp
             if not ok:
